@@ -16,7 +16,7 @@ Variables (tol brk : F).
 Definition exA : mat F := [:: [:: 1; 1]; [:: 1; 1]].
 Definition exInit : cols F := [:: [:: 1; 0]].
 Definition exG : lz_args F :=
-  MkArgs true (tensor_mm (ArR F) 1 [:: exA]) 2 2 [::] (Some (MkInit true false [::] 2 1 exInit)) 1 [::] tol brk 10 true.
+  MkArgs true (tensor_mm (ArR F) 1 [:: exA]) 2 2 [::] (Some (MkInit true false [::] 2 1 exInit)) 1 [::] tol brk 10 true false false.
 
 Lemma ex_satisfiable :
   exists o,
@@ -43,7 +43,7 @@ Qed.
    break test).  beta_0 = 0, m = 2: the hypotheses of the last clause of C09_breakdown_prefix hold with w = 1. *)
 Definition exI : mat F := [:: [:: 1; 0]; [:: 0; 1]].
 Definition exG2 : lz_args F :=
-  MkArgs true (tensor_mm (ArR F) 1 [:: exI]) 2 2 [::] (Some (MkInit true false [::] 2 1 exInit)) 1 [::] tol brk 10 true.
+  MkArgs true (tensor_mm (ArR F) 1 [:: exI]) 2 2 [::] (Some (MkInit true false [::] 2 1 exInit)) 1 [::] tol brk 10 true false false.
 
 Lemma ex_breakdown_satisfiable :
   exists o,
@@ -62,6 +62,43 @@ eexists; split.
 - split; first by move=> X; apply: (@dense_mm_lin F 2 1 [:: exI] 0) => // -[|[|i]].
   apply/matrixP => i j; rewrite !mxE.
   by case: i => [[|[|i]] hi] //; case: j => [[|[|j]] hj].
+Qed.
+
+
+(* the same input on the REPAIRED source (both flags set): with a threshold below beta_0 = 1 the first-step test does not
+   stop the run and everything is as above *)
+Definition exGr : lz_args F :=
+  MkArgs true (tensor_mm (ArR F) 1 [:: exA]) 2 2 [::] (Some (MkInit true false [::] 2 1 exInit)) 1 [::] tol brk 10 true true true.
+
+Lemma ex_beta0 : lz_beta0 (ArR F) 2 1 (tensor_mm (ArR F) 1 [:: exA]) exInit = [:: 1].
+Proof.
+rewrite /lz_beta0 /cnorm /csub /cscale_l /cdot /cdiv /tensor_mm /ctab /mkseq /= /norm2 /dot /= /vget /= /cget /= /matvec /= /rowdot /=.
+by rewrite !(mulr0, mul0r, mulr1, mul1r, addr0, add0r, subr0, sqrtr1, divr1, invr1, subrr, sqrtr0, oppr0, expr2).
+Qed.
+
+Lemma ex_satisfiable_repaired : brk < 1 ->
+  exists o,
+    [/\ lanczos_tridiag (ArR F) exGr = Ok o /\ lz_start exGr = Ok (1%N, exInit),
+        (0 < size (o_Q o))%N /\ o_m o = g_n exGr,
+        cv 2 exInit (col_of (prodn (g_batch exGr)) 1 0) != 0,
+        (forall j, (j.+1 < o_m o)%N -> mget (ArR F) (nth [::] (o_T o) 0) j j.+1 != 0) &
+        (forall X, cv 2 (g_mm exGr X) 0 = mx_of 2 2 exA *m cv 2 X 0) /\ (mx_of 2 2 exA)^T = mx_of 2 2 exA].
+Proof.
+move=> Hbrk.
+have Hstop : lz_stop (ArR F) exGr 1 exInit = false.
+  have -> : lz_stop (ArR F) exGr 1 exInit
+            = true && ((2 < 2)%N || ~~ has (fun b : F => brk < `|b|)
+                                         (lz_beta0 (ArR F) 2 1 (tensor_mm (ArR F) 1 [:: exA]) exInit)) by [].
+  by rewrite ex_beta0 /= normr1 Hbrk.
+have Erun : lanczos_tridiag (ArR F) exGr = lanczos_tridiag (ArR F) exG.
+  rewrite /lanczos_tridiag.
+  have -> : lz_start exGr = Ok (1%N, exInit) by [].
+  have -> : lz_start exG = Ok (1%N, exInit) by [].
+  cbv beta iota.
+  rewrite -/(lz_stop (ArR F) exGr 1 exInit) Hstop.
+  reflexivity.
+have [o [[H1 H1'] H2 H3 H4 H5]] := ex_satisfiable.
+by exists o; split=> //; split=> //; rewrite Erun.
 Qed.
 
 End Ex.
